@@ -3,6 +3,10 @@
 mod util;
 mod exec;
 mod c15;
+mod c16;
+mod c17;
+mod c19;
+mod c20;
 
 use util::*;
 
@@ -33,6 +37,10 @@ fn main() {
     if let Some(r) = ctx.replay.clone() { exec::replay(&ctx, &r); return; }
     match prop.as_str() {
         "C15" => c15::run(&mut ctx),
+        "C16" => c16::run(&mut ctx),
+        "C17" => c17::run(&mut ctx),
+        "C19" => c19::run(&mut ctx),
+        "C20" => c20::run(&mut ctx),
         _ => { eprintln!("unknown property {prop}"); std::process::exit(2); }
     }
 }
